@@ -216,12 +216,17 @@ class String(Primitive):
         return self._value
 
     def __hash__(self) -> int:
-        return hash(self._value)
+        return hash(self._normalized)
 
     def __eq__(self, other: object) -> bool:
         if isinstance(other, String):
-            return self._value == other._value
+            # Same semantics as the DSDL operator "==", so that equal strings are the same element of a set.
+            return self._normalized == other._normalized
         return NotImplemented  # pragma: no cover
+
+    @property
+    def _normalized(self) -> str:
+        return unicodedata.normalize("NFC", self._value)
 
     def __str__(self) -> str:
         try:
@@ -236,10 +241,6 @@ class String(Primitive):
 
     def _equal(self, right: _any.Any) -> Boolean:
         if isinstance(right, String):
-
-            def normalized(s: str) -> str:
-                return unicodedata.normalize("NFC", s)
-
-            return Boolean(normalized(self._value) == normalized(right._value))
+            return Boolean(self._normalized == right._normalized)
 
         raise _any.UndefinedOperatorError
